@@ -23,7 +23,7 @@ COMPONENTS = {'real': ['lib/lpc/program/binaries.c (save_binary, load_binary, ch
 ASSUMPTIONS = ['a binary is stale when its own source, one of its (transitively) included files, the source or an included file of a (transitively) inherited program, or - after a restart - the simul_efun file has a strictly later modification time',
                'every edit happens at least two simulated seconds after the previous compile (modification times have one-second resolution)',
                'a change of the driver bytecode format cannot be simulated (one binary of the driver)',
-               'torn .b files are not injected']
+               'disk faults are injected while binaries are written (one failing call, or the disk stopping for the rest of a life that then ends in a restart); a later load must not be served from what such a save left behind unless it is complete']
 
 PROGS = ['m', 'p', 'q', 'o']
 NO_CYCLE_SHRINK = True     # the oracle indexes plan cycles (phases, lives): removing cycles would change what is judged
@@ -172,7 +172,7 @@ def gen(rng, tier, i):
     p.file('g/ih.h', fam_text('ih'))
     progs = [x for x in PROGS if x in w.order]
     phases = []
-    def load_phase():
+    def load_phase(fault=None):
         ph = {'deps': {x: _deps(w, x) for x in progs}, 'inherit': dict(w.inherit), 'segs': [dict(s) for s in w.segs], 'natural': list(w.natural), 'progs': progs}
         cyc = []
         cyc.append(p.cycle(connect(0, 0)) if load_phase.need_connect else None)
@@ -188,6 +188,10 @@ def gen(rng, tier, i):
         ph['load_cycles'] = {}
         for x in reversed(progs):      # o first, then the inherit chain bottom-up is triggered by m
             pass
+        if fault:
+            # the disk fails while the programs are compiled and their binaries written: one call fails (a full disk, an I/O
+            # error) or everything from one call on fails and the driver is restarted (a crash in the middle of a save)
+            p.cycle('fsarm %d%s' % (fault[1], ' once' if fault[0] == 'once' else '')); ph['fault'] = list(fault)
         order = [x for x in ('o', 'm') if x in progs]
         for x in order:
             ph['load_cycles'][x] = p.cycle(send(0, 'do call /g/%s warm\r\n' % x))
@@ -199,6 +203,7 @@ def gen(rng, tier, i):
         ph['fam_cycle'] = p.cycle(send(0, 'do xco f /g/ia av\r\n')); ph['fam_expect'] = fam_value()
         if zl_len: ph['zl_cycle'] = p.cycle(send(0, 'do dest /g/zl;xco z /g/zl zn\r\n')); ph['zl_expect'] = zl_len
         if lp_path: ph['lp_cycle'] = p.cycle(send(0, 'do dest /%s;xco l /%s v\r\n' % (lp_path, lp_path)))
+        if fault: p.cycle('fsdisarm')
         phases.append(ph)
     # now and then: a program with #pragma save_binary whose string table holds a constant folded from many literals, around
     # the 65535 characters that a saved binary can describe
@@ -247,7 +252,17 @@ def gen(rng, tier, i):
         if (restart or rng.random() < 0.35) and lives < 4:
             p.cycle('idle'); p.cycle('restart %d' % rng.randint(2, 20)); lives += 1
             load_phase.need_connect = True
-        load_phase()
+        fault = None
+        if rng.random() < 0.3:
+            fault = (rng.choice(('once', 'crash')) if lives < 4 else 'once', rng.randint(0, 30))
+        load_phase(fault)
+        if fault:
+            # whatever the failed save left behind is what the next loads find, in this life or the next
+            if fault[0] == 'crash':
+                p.cycle('idle'); p.cycle('restart %d' % rng.randint(2, 20)); lives += 1
+                load_phase.need_connect = True
+            p.cycle('adv %d' % (rng.randint(2, 6) * 1000000))
+            load_phase()
     p.idle(1)
     p.meta['phases'] = phases
     return p
